@@ -4038,7 +4038,7 @@ impl<'store> QueryIter<'store> {
                 Err(e) => {
                     eprintln!("STAM Query error: {}", e);
                     #[cfg(feature = "verif")]
-                    crate::verif::note("query_error");
+                    crate::verif::note_detail("query_error", format!("{:?}", e));
                     return StateStackStatus::Invalid;
                 }
                 Ok(StateStackStatus::NewState) => {
